@@ -75,3 +75,44 @@ Qed.
 
 Theorem WFG_run ops : forall g, WFG g -> WFG (run_api g ops).
 Proof. induction ops as [|o r IH]; intros g H; simpl; auto. apply IH, WFG_step, H. Qed.
+
+(** ** derived graphs are WFG: every invariant behind C02-C05 holds on slices and conversions *)
+From DynVerif Require Import Derived.
+
+Lemma WFG_add_runs runs : forall g u v, WFG g -> WFG (fst (add_runs g u v runs)).
+Proof.
+  induction runs as [|[s f] r IH]; intros g u v Hw; cbn [add_runs]; [assumption|].
+  pose proof (WFG_add g u v (Some s) (Some (f + 1)) Hw) as Hw'.
+  destruct (add_interaction g u v (Some s) (Some (f + 1))) as [g' o]. simpl in Hw'.
+  destruct o; simpl; auto.
+Qed.
+
+Lemma WFG_add_all l : forall g, WFG g -> WFG (fst (add_all_runs g l)).
+Proof.
+  induction l as [|[[u v] runs] r IH]; intros g Hw; cbn [add_all_runs]; [assumption|].
+  pose proof (WFG_add_runs runs g u v Hw) as Hw'.
+  destruct (add_runs g u v runs) as [g' o]. simpl in Hw'. destruct o; simpl; auto.
+Qed.
+
+Lemma InvAdj_with_nodes_same g n : InvAdj g -> map fst n = node_ids g -> InvAdj (with_nodes g n).
+Proof.
+  intros (Hk & Hn & He & Ho) Hm. unfold InvAdj. unfold node_ids in *. cbn [with_nodes g_nodes g_edges g_dir].
+  rewrite Hm. split; [exact Hk|]. split; [exact Hn|]. split; [exact He|exact Ho].
+Qed.
+
+Lemma WFG_with_nodes_same g n : WFG g -> map fst n = node_ids g -> WFG (with_nodes g n).
+Proof.
+  intros (Hw & Ha & Hr) Hm. split; [apply WF_with_nodes; assumption|]. split; [apply InvAdj_with_nodes_same; assumption|exact Hr].
+Qed.
+
+Lemma WFG_with_attr g a : WFG g -> WFG (with_attr g a).
+Proof. intros H. exact H. Qed.
+
+Lemma WFG_time_slice g a b H o : time_slice g a b = (Some H, o) -> WFG H.
+Proof.
+  unfold time_slice. destruct (_ <? a); [discriminate|].
+  match goal with |- context [add_all_runs ?g0 ?l] => pose proof (WFG_add_all l g0 (WFG_empty _ _)) as Hw;
+    destruct (add_all_runs g0 l) as [h' o'] end.
+  simpl in Hw. destruct o'; intros E; inversion E; subst. unfold copy_attrs.
+  apply WFG_with_nodes_same; [exact Hw|]. unfold node_ids. rewrite map_map. reflexivity.
+Qed.
